@@ -144,6 +144,7 @@ type Exec struct {
 	timerSeq int
 	Horizon  time.Duration
 	NoEarlyTick bool // timers fire only when no thread is enabled
+	Policy   int  // default order of the other threads: 0 = oldest first, 1 = newest first
 
 	closed   map[uintptr]any
 	chanVC   map[uintptr]VC
@@ -385,7 +386,11 @@ func (x *Exec) buildMenu() []entry {
 		menu = x.altsOf(c, menu)
 	}
 	var faults []entry
-	for _, t := range x.threads {
+	for i := range x.threads {
+		t := x.threads[i]
+		if x.Policy == 1 { // newest thread first
+			t = x.threads[len(x.threads)-1-i]
+		}
 		if t == c || t.st != tsParked {
 			continue
 		}
@@ -827,6 +832,7 @@ type RunOpts struct {
 	MaxSteps int
 	Watchdog time.Duration
 	NoEarlyTick bool
+	Policy   int
 }
 
 // RunOne executes body as thread 0 under the given deviations.
@@ -834,7 +840,7 @@ func RunOne(o RunOpts, body func(x *Exec)) *Exec {
 	x := &Exec{
 		byGid: map[int64]*Thread{}, devs: o.Devs, wantSig: o.WantSig, trace: o.Trace, Horizon: o.Horizon,
 		closed: map[uintptr]any{}, chanVC: map[uintptr]VC{}, done: make(chan struct{}), MaxSteps: o.MaxSteps,
-		maps: map[uintptr]*mapState{}, interest: false, NoEarlyTick: o.NoEarlyTick,
+		maps: map[uintptr]*mapState{}, interest: false, NoEarlyTick: o.NoEarlyTick, Policy: o.Policy,
 	}
 	if x.MaxSteps == 0 {
 		x.MaxSteps = 200000
